@@ -388,7 +388,7 @@ pub const LAYOUT_LETTERS: [&str; 10] = [
 
 /// Position-hostile letters (C12, C23): multi-byte text, several comments per line and per gap,
 /// multi-line comments followed by more text on the line, CRLF, tabs.
-pub const HOSTILE_LETTERS: [&str; 12] = [
+pub const HOSTILE_LETTERS: [&str; 13] = [
     " /* é漢 */ ",
     " /* a */ /* é */ /* c */ ",
     " // é漢\n",
@@ -401,6 +401,9 @@ pub const HOSTILE_LETTERS: [&str; 12] = [
     "\r\n\r\n",
     " /*é*//*ü*/",
     " /** d */ /// é\n",
+    // a multi-line comment whose LAST line carries several surplus bytes, directly followed by the
+    // next tokens: a column restarted from a byte length after the line break glues or shifts them
+    " /* a\n 漢漢é */ ",
 ];
 
 pub fn letter_name(l: &str) -> String {
